@@ -30,17 +30,18 @@ def DecResOk (dec : List DecRes) : Prop :=
 
 theorem C17_init (cfg : Config) : Inv (Conn.init cfg) := by
   unfold Inv
-  refine ⟨⟨⟨?_, ?_, ?_, ?_⟩, ?_⟩, ?_⟩
+  refine ⟨⟨⟨?_, ?_, ?_, ?_, ?_⟩, ?_⟩, ?_⟩
   · cases hc : cfg.client <;> simp only [Conn.init, hc] <;> first | exact settingsOk_init_cl | exact settingsOk_init_sl
   · cases hc : cfg.client <;> simp only [Conn.init, hc] <;> first | exact settingsOk_init_cr | exact settingsOk_init_sr
   · cases hc : cfg.client <;> simp [Conn.init, hc, client_init_max_out_frame, server_init_max_out_frame]
   · intro r hr; cases hc : cfg.client <;> simp [Conn.init, hc] at hr
+  · cases hc : cfg.client <;> simp only [Conn.init, hc] <;> first | exact ls32_init_cl | exact ls32_init_sl
   · intro _ e he; cases hc : cfg.client <;> simp [Conn.init, hc] at he
   · cases hc : cfg.client <;> simp [Conn.init, hc, FrameBuffer.init, HbOk]
 
 theorem C17_feed (c : Conn) (enc : List Bytes) (dec : List DecRes) (h : Inv c) (hd : DecResOk dec) :
     Inv (feed c enc dec) :=
-  ⟨⟨⟨h.1.1.ls, h.1.1.rs, h.1.1.mof, hd⟩, h.1.2⟩, h.2⟩
+  ⟨⟨⟨h.1.1.ls, h.1.1.rs, h.1.1.mof, hd, h.1.1.ls32⟩, h.1.2⟩, h.2⟩
 
 /-- **C17**: `receive_data` on any bytes returns events or raises ProtocolError (or a subclass) whose error code
     fits a GOAWAY frame; never anything else.  The invariant holds again afterwards. -/
